@@ -122,7 +122,22 @@ func configText(which string, cfg map[string]bool, dir string, optFmts map[strin
 	return "[Global]\n" + g.String() + "[Resolver]\n" + r.String()
 }
 
-var statsRe = regexp.MustCompile(`(?m)^  Database file:\s*(.*)\n  Database records:\s*(\d+)\n\n  Log file:\s*(.*)\n  Log records:\s*(\d+)\n  Today:\s*(.*)\n`)
+// stats output is read label by label (further lines may be added to it: only the labelled figures are compared)
+type statsMatcher struct{}
+
+var statsRe statsMatcher
+
+func (statsMatcher) FindStringSubmatch(out string) []string {
+	m := []string{out}
+	for _, label := range []string{"Database file", "Database records", "Log file", "Log records", "Today"} {
+		r := regexp.MustCompile(`(?m)^[ \t]*` + label + `:[ \t]*(.*)$`).FindStringSubmatch(out)
+		if r == nil {
+			return nil
+		}
+		m = append(m, strings.TrimSpace(r[1]))
+	}
+	return m
+}
 
 func runAs(dir string, env []string, args ...string) binResult {
 	cmd := exec.Command(os.Getenv("VERIF_BIN"), args...)
